@@ -37,4 +37,13 @@ theorem schema_elem_ids_first :
     (schema.elems.all.all fun d => (names d.nc).all fun q => q == ANY || decide (q < GrammarSchema.nSchemaElems)) = true := by
   decide +kernel
 
+set_option maxRecDepth 100000 in
+/-- the `<anyName/>` declarations (the islands: content of math:math, xforms:model, foreign
+    metadata) exist, and each of them permits any child element and character data — so an element
+    that no declaration names may, where it may occur at all, contain any element and text -/
+theorem islands_permit_anything :
+    schema.anyPatterns.isEmpty = false
+    ∧ (schema.anyPatterns.all fun p => (mayElems schema FUEL p).contains ANY && mayText schema FUEL p) = true := by
+  decide +kernel
+
 end OdfModel.Props.C06
